@@ -6,7 +6,9 @@ R2 isolation                : the search works on a deep copy of the solver; wri
                               TimeSeries[*][0] and the diagnostic holder; parser, caps and horizon only on the copy.
 R3 loud failure             : non-empty bad list => raise; convergence error => value error; a variable flagged bad is
                               never installed as the k=0 value.
-R4 the right two points     : the acceptance test compares the last two points of the *copy's* series of that variable."""
+R4 the right two points     : the acceptance test compares the last two points of the *copy's* series of that variable.
+R5 what is installed        : every series is tested, only tested series are installed, with the last point of their own series.
+R6 frozen inputs            : the constant exogenous paths of the search are the k=0 values."""
 import ast
 
 from ..inline import flatten
@@ -438,6 +440,36 @@ def run(prog, check):
                          'steadiness test (stale when tolerance, functions or equations changed)', 'a second solve after tightening the tolerance')
     check.ob('C15.R5', '%s::install-present' % ss.key, bool(all_install), ss.where,
              'accepted values are written to TimeSeries[var][0]' if all_install else 'nothing is installed after a successful search', '')
+    # ---- R6: the exogenous inputs of the search are frozen at their k=0 values ------------------------------------------------
+    # in a loop over the (copy's) exogenous block, the series stored for the loop variable is built from item 0 of that variable's
+    # series - judged on the syntax of the stored value (through single-assignment temporaries); other spellings are not judged
+    subst6 = single_assign_subst(ss.node)
+    for loop6 in [n for n in ast.walk(ss.node) if isinstance(n, ast.For) and isinstance(n.iter, ast.Attribute) and n.iter.attr == 'Exogenous']:
+        lv = target_names(loop6.target)
+        if not lv:
+            continue
+        for st6 in ast.walk(loop6):
+            if not (isinstance(st6, ast.Assign) and len(st6.targets) == 1 and isinstance(st6.targets[0], ast.Subscript) and
+                    isinstance(st6.targets[0].value, ast.Attribute) and st6.targets[0].value.attr == 'TimeSeries' and
+                    isinstance(st6.targets[0].slice, ast.Name) and st6.targets[0].slice.id == lv[0]):
+                continue
+            val6 = st6.value
+            if isinstance(val6, ast.Name) and val6.id in subst6:
+                val6 = subst6[val6.id]
+            reads = [x for x in ast.walk(val6) if isinstance(x, ast.Subscript) and isinstance(x.value, ast.Subscript) and
+                     isinstance(x.value.value, ast.Attribute) and x.value.value.attr == 'TimeSeries' and
+                     isinstance(x.value.slice, ast.Name) and x.value.slice.id == lv[0]]
+            if not reads:
+                continue
+            bad6 = [x for x in reads if not (isinstance(x.slice, ast.Constant) and x.slice.value == 0)]
+            check.ob('C15.R6', '%s::exogenous-frozen-at-k0(%s)' % (ss.key, lv[0]), not bad6, '%s:%d' % (ss.module.rel, st6.lineno),
+                     'the constant path of an exogenous input is its k=0 value' if not bad6 else
+                     'the search freezes the exogenous input at `%s`, not at its k=0 value: the state it accepts is steady for another '
+                     'input than the one the model starts with' % unparse(bad6[0]),
+                     'an exogenous path that changes between k=0 and k=1 (G = [20, 25, 25, ...])')
+    # an overflowing search is not a steady state: the step solver the search runs on does not take a NaN error for convergence
+    from .C02 import nan_stops_the_period
+    nan_stops_the_period(check, Sweep(prog), 'C15.R3', 'a search on an explosive system (x = 50*x(k-1) + G): inf must not be installed at k=0')
     # convergence error => value error
     conv = False
     for n in ast.walk(ss.node):
